@@ -16,7 +16,6 @@ theorem vcf_format_eq : Generated.VCF_FORMAT_LOSS = ["GT", "GQ"] ∧
     Generated.VCF_FORMAT_GAIN = ["GT", "GQ", "CN", "CNQ"] := ⟨rfl, rfl⟩
 theorem vcf_svlen_factor_eq : Generated.VCF_SVLEN_LOSS_FACTOR = -1 := rfl
 theorem seg_start_shift_eq : Generated.SEG_START_SHIFT = 1 := rfl
-theorem label_start_shift_eq : Generated.LABEL_START_SHIFT = 1 := rfl
 
 /-! ### list plumbing: boolean masks, zipWith, filterMap -/
 
